@@ -124,9 +124,21 @@ NEEDS6 = {
  "C13": "a pawn pinned on a diagonal whose en-passant capture lands on that diagonal between itself and its own king",
  "C20": "an orthodox board where the side to move has lost one castling right; display_uci_move of the remaining castle",
 }
+NEEDS7 = {
+ "C01": "an accepted board where the mover holds a castling right and the enemy king is adjacent to a square of the king's castling path or its destination",
+ "C02": "a castle whose king starts on the rook's destination square (king on the f-file castling short, or on the d-file castling long)",
+ "C06": "a builder state with an en-passant square while the side to move is in check from an unrelated piece (checkers computed only at the end of build)",
+ "C07": "plain FEN of a Chess960 position with the rooks on a/h and the king off the e-file while rights are held",
+ "C08": "a record whose en-passant square is on the third/sixth rank of the wrong side (e3 with White to move)",
+ "C09": "a builder state with a long castling right naming a rook on the kingside of the king",
+ "C10": "a board whose en-passant square can be captured by a pawn of the side to move; hash_without_ep / same_position",
+ "C13": "a parsed or built board in which an own pawn that can capture en passant and an enemy piece both stand between an enemy slider and the king",
+ "C19": "a move text with a promotion suffix whose destination is not on a back rank (a1a2n)",
+ "C20": "an en-passant capture by Black given to display_san_move",
+}
 ONLY = [a for a in sys.argv[1:] if not a.startswith("--")]
 for d in sorted(os.listdir(os.path.join(HERE, "seeded"))):
-    m = re.match(r"agent([23456]?)-(C\d+)$", d)
+    m = re.match(r"agent([234567]?)-(C\d+)$", d)
     if not m:
         continue
     if ONLY and not any(o in d for o in ONLY):
@@ -170,7 +182,7 @@ for d in sorted(os.listdir(os.path.join(HERE, "seeded"))):
     meta = {
         "breaks_property": pid,
         "written_by": "independent sub-agent given only the property text and a scratch worktree",
-        "needs_to_manifest": {1: NEEDS, 2: NEEDS2, 3: NEEDS3, 4: NEEDS4, 5: NEEDS5, 6: NEEDS6}[rnd].get(pid, ""),
+        "needs_to_manifest": {1: NEEDS, 2: NEEDS2, 3: NEEDS3, 4: NEEDS4, 5: NEEDS5, 6: NEEDS6, 7: NEEDS7}[rnd].get(pid, ""),
         "round": rnd,
         "files": ["patch.diff", "demo/", "NOTES.md"],
         "independent_confirmation": conf,
